@@ -25,10 +25,33 @@ def suspend_part(ctx):
              "m15_timed_and_indef", "m08_nested", "m02_first_successful"]
     progs = [CURATED_CONC[n] for n in names] + [gen_conc_program(rng) for _ in range(6 if ctx.quick else 80)]
     items = [(p, conc_scenario(rng, p)) for p in progs for _ in range(5 if ctx.quick else 14)]
+    # timing sweep: a branch parked on a 1 s timer is resumed in-process while its sibling's function ends (or the sibling
+    # parks) at every offset around the timer thread's refresh-checkpoint round trip
+    grid = [round(0.1 * k, 2) for k in range(1, 22, (2 if ctx.quick else 1))]
+    for d in grid:
+        for lat in ((0.3,) if ctx.quick else (0.05, 0.3, 0.6)):
+            for sib in ([{"k": "step", "dur": d}], [{"k": "step", "dur": d}, {"k": "cb", "between": []}]):
+                p = {"nodes": [{"k": "par", "branches": [[{"k": "wait", "s": 1}, {"k": "step"}], sib]}, {"k": "step"}]}
+                for rep in range(3 if ctx.quick else 8):
+                    items.append((p, {"seed": rng.randrange(1 << 30), "max_inv": 16, "api_latency": lat,
+                                      "strategy": "pct" if rep % 2 else "random"}))
     execs = run_campaign(ctx, items)
     ctx.notes["conc_executions"] = len(execs)
     for e in execs:
         oracles.c07(ctx, e)
+    # probe of the model: with the reset moved behind the refresh checkpoint TLC must find the unsound suspension
+    from checks.executor_common import exec_mc
+    from lib.tlcrun import MachineryError, require_ok, run_tlc
+    mod, cfg = exec_mc(f"exp_{ctx.pid}_resetlate", [["tsusp", "ok"], ["step", "ok"]], 0, 0, NONEC, NONEP, ["SuspendNotWhileResuming"],
+                       reset_first=False)
+    res = run_tlc(mod, cfg, f"exp_{ctx.pid}_resetlate", timeout_s=600)
+    require_ok(res, "Executor.tla probe ResetFirst=FALSE")
+    ctx.add_tlc(res, "probe: Executor.tla with reset_to_pending AFTER the refresh checkpoint violates SuspendNotWhileResuming")
+    if res.ok or res.violated != "SuspendNotWhileResuming":
+        raise MachineryError(f"probe ResetFirst=FALSE: expected SuspendNotWhileResuming to fail, got ok={res.ok} violated={res.violated}")
+    # every recorded execution of the real executor is a behaviour of Executor.tla (timer thread: reset, then refresh, then submit)
+    from checks.conc_check import validate_exec_traces
+    validate_exec_traces(ctx, execs, STRICT["C07"], name=f"{ctx.pid.lower()}_susp_extrace")
 
 
 def failstop_part(ctx):
@@ -38,4 +61,6 @@ def failstop_part(ctx):
                    scripts_sets=[[["step", "bte"], ["step", "ok"]], [["bte"], ["susp"]], [["tsusp", "bte"], ["step", "ok"]]],
                    configs=[(0, 0, NONEC, NONEP), (0, 1, NONEC, NONEP), (1, 0, 0, 0)], budget=(6 if ctx.quick else None))
     progs = [CURATED_CONC[n] for n in ["m01_all_ok", "m04_waits_retries", "m02_first_successful", "m06_maxc1", "m15_timed_and_indef"]]
-    fault_enumeration(ctx, progs, [oracles.c06, oracles.c18], faults=["invalid_param", "throttle429"], seed_salt=707)
+    ex = fault_enumeration(ctx, progs, [oracles.c06, oracles.c18], faults=["invalid_param", "throttle429"], seed_salt=707)
+    from checks.conc_check import validate_exec_traces
+    validate_exec_traces(ctx, ex, STRICT["C06"], name=f"{ctx.pid.lower()}_fail_extrace")
